@@ -220,8 +220,9 @@ func Run(path string, seed int64) (*Report, error) {
 			for _, w := range absx.List(c["whitelist"]) {
 				p.FeeWhitelist = append(p.FeeWhitelist, conc.Addr(absx.Str(w)))
 			}
+			// as a parameter update would: an update the chain refuses leaves the previous (empty) whitelist in force
 			if err := ch.F.Child.SetParams(cc, p); err != nil {
-				panic(err)
+				errStr = "whitelist update refused: " + err.Error()
 			}
 			got = free(cc, e.tx([]sdk.Msg{e.msg(M{"k": "send"})}, nil, 100000, absx.Str(c["payer"]), absx.Str(c["granter"])))
 		case "redundant":
